@@ -130,4 +130,7 @@ def run(tier, seed):
 
     from contracts import C01_pflow
     C01_pflow.add_obligations(pack, tier)
+    # the balance is demanded at the buses that are not islanded: the island sets are the components of the in-service branch graph
+    from contracts.packutil import connectivity_premise
+    connectivity_premise(pack, 'C01')
     return pack.finish()
